@@ -563,7 +563,16 @@ pub fn int_range(typ: u8, unsigned: bool) -> (i128, i128) {
 }
 
 pub fn gen_int_in(rng: &mut Rng, lo: i128, hi: i128) -> i128 {
-    match rng.below(8) {
+    match rng.below(11) {
+        8 | 9 | 10 => {
+            // uniform in magnitude: a random bit length, then a random value of that length (so the
+            // bands between two powers of two - 128..255, 32768..65535, 2^31..2^32-1 - are all met,
+            // which a draw that is uniform over a 64-bit range never does)
+            let k = rng.below(64) as u32;
+            let m = (1i128 << k) + (((rng.next() as u128) % (1u128 << k)) as i128);
+            let v = if rng.bool() { -m } else { m };
+            v.max(lo).min(hi)
+        }
         0 => lo,
         1 => hi,
         2 => 0.max(lo).min(hi),
